@@ -49,6 +49,11 @@ class BndEval:
                     return self.strid(["cp", rv[2]], depth + 1)
             if d[0] == "call" and IDENT_FNS.search(d[2].get("res") or "") and d[2]["args"]:
                 return self.strid(d[2]["args"][0], depth + 1)
+            if d[0] == "call" and is_str_index(d[2]) and len(d[2]["args"]) > 1:
+                # a prefix `&s[..k]` (itself a checked site) has the offsets of s: a boundary found in it is a boundary of s
+                rng = self.range_of(d[2]["args"][1])
+                if rng is not None and rng[0] in ("RangeTo", "RangeToInclusive"):
+                    return self.strid(d[2]["args"][0], depth + 1)
         return ("local", l)
 
     # ---- expression keys for equality of index expressions
@@ -380,7 +385,12 @@ class BndEval:
                 return None
             if place_projs(p):
                 base = place_local(p)
-                for d in f.whole_defs(base):
+                cands = list(f.whole_defs(base))
+                for d in list(cands):
+                    # `s.find(p)?`: the payload of the Continue arm of Try::branch(find result)
+                    if d[0] == "call" and re.search(r"Try>?::branch$", d[2].get("res") or "") and d[2]["args"] and op_local(d[2]["args"][0]) is not None:
+                        cands += f.whole_defs(op_local(d[2]["args"][0]))
+                for d in cands:
                     if d[0] == "call" and FIND_FAMILY.search(d[2].get("res") or "") and self.strid(d[2]["args"][0]) == S:
                         pa = d[2]["args"][1]
                         k = op_const(pa)
@@ -800,7 +810,7 @@ def r7_slicing(ctx):
             r.ok(sample={"site": crate.span_str(s.c["span"]), "string": sname, "proof": descr} if len(r.samples) < 6 else None)
         else:
             pending.append((key, "slice of %s at %s is not a proven char boundary (%s): non-ASCII text can make it panic" % (
-                sname, crate.span_str(s.c["span"]), "; ".join("%s: %s" % b for b in bad))))
+                sname, crate.span_str(s.c["span"]), "; ".join("%s: %s" % b for b in bad)), (s.f, s.bb)))
     settle(r, pending)
     r.counts["sites"] = len(sites)
     r.floor("str slicing sites", len(sites), 12)
@@ -820,27 +830,6 @@ def _cmp_guards(f):
                 if false_t:
                     out.append((st[2][1], st[2][2], st[2][3], t[3], false_t[0]))
     return out
-
-
-def _under_true_edge_of(callee_re):
-    def pred(crate, f, bb):
-        from .r8 import _switch_after_call
-        dom = f.dominators()
-        for b2, c in f.calls():
-            if not re.search(callee_re, c.get("res") or c.get("fn") or ""):
-                continue
-            sw = _switch_after_call(f, b2)
-            if sw and sw[1] in dom.get(bb, set()):
-                return True
-        return False
-    return pred
-
-
-# reviewed R7d arguments that rest on a guard: (what the guard is, the test that it still dominates the site)
-R7D_RESTS_ON = {
-    "R7d|providers::code_action::<impl providers::Backend>::handle_code_action::{closure#0}|`func_line_content`":
-        ("a dominating `contains(..)` test", _under_true_edge_of(r"str>?::contains")),
-}
 
 
 def r7_range_order(ctx):
@@ -886,14 +875,11 @@ def r7_range_order(ctx):
                         continue
                     if ks == lo or (strict and ks in (("Add", lo, one), ("Add", one, lo))):
                         why = "guarded by a dominating comparison of start and end"
-        if why is None and key in R7D_RESTS_ON and not R7D_RESTS_ON[key][1](crate, f, s.bb):
-            # the reviewed argument names a guard; without the guard the argument is void and the site is a new one
-            key += "|without " + R7D_RESTS_ON[key][0]
         if why:
             r.ok(sample={"site": crate.span_str(s.c["span"]), "string": sname, "start<=end": why})
         else:
             pending.append((key, "range `%s[a..b]` at %s: a <= b is not established (no `a + x` end, no dominating comparison): the slice "
-                                 "panics when the start lies behind the end" % (sname, crate.span_str(s.c["span"]))))
+                                 "panics when the start lies behind the end" % (sname, crate.span_str(s.c["span"])), (f, s.bb)))
     settle(r, pending)
     r.floor("two-sided str ranges", n, 2)
     return r
@@ -1306,7 +1292,7 @@ def r7_index_bounds(ctx):
             if why:
                 r.ok(sample={"site": crate.span_str(c["span"]), "index": "%s[%s]" % (cname, idescr), "proof": why} if len(r.samples) < 6 else None)
             else:
-                pending.append((key, "index %s[%s] at %s is not proven in bounds" % (cname, idescr, crate.span_str(c["span"]))))
+                pending.append((key, "index %s[%s] at %s is not proven in bounds" % (cname, idescr, crate.span_str(c["span"])), (f, bb)))
     settle(r, pending)
     r.counts["vec_index_sites"] = n
     r.floor("Vec / slice index sites", n, 8)
@@ -1625,3 +1611,124 @@ def _origin_res(f, op, depth=0):
         if d[0] == "assign" and d[3][0] == "use":
             return _origin_res(f, d[3][1], depth + 1)
     return None
+
+
+def r7g_take_after_skip_is_a_count(ctx):
+    r = Result("R7g", "in `it.skip(a).take(n)` the amount n is a COUNT: when n is computed from a position (the index of an enumerate, "
+                      "the result of position / find / char_indices) it has to pass a subtraction on the way (`end - a`). "
+                      "`skip(a).take(end)` runs a items past the intended end -- the swapped form of `take(end).skip(a)` -- and "
+                      "only inputs where a > 0 and something follows the end show it")
+    crate = ctx.bin
+    n = 0
+    for f in crate.real_fns():
+        if "_serde::" in f.id or f.id.startswith("<"):
+            continue
+        for bb, c in f.calls():
+            res = c.get("res") or c.get("fn") or ""
+            if not re.search(r"Iterator::take$", res) or len(c["args"]) < 2 or c["span"][4].startswith("macro:"):
+                continue
+            if "iter::Skip<" not in " ".join(c.get("targs", [])[:1]) and "iter::Skip<" not in f.local_ty(op_local(c["args"][0]) or 0):
+                continue
+            n += 1
+            pos, sub = _position_without_subtraction(f, c["args"][1])
+            key = "R7g|%s|take(position) after skip" % f.root
+            if pos and not sub:
+                r.violate(key, "%s: `skip(..).take(n)` at %s where n comes from %s and no subtraction: n is an end position, not a count" % (
+                    f.root.split("::")[-1], crate.span_str(c["span"]), pos))
+            else:
+                r.ok(sample={"in": f.root.split("::")[-1], "amount": "difference" if sub else "count / constant"})
+    r.counts["take_after_skip"] = n
+    return r
+
+
+def _position_without_subtraction(f, op):
+    seen, st = set(), [op_local(op)]
+    pos, sub = None, False
+    while st and len(seen) < 80:
+        x = st.pop()
+        if x is None or x in seen:
+            continue
+        seen.add(x)
+        for d in f.defs().get(x, []):
+            if d[0] == "call":
+                res = d[2].get("res") or d[2].get("fn") or ""
+                if re.search(r"(saturating_sub|checked_sub|wrapping_sub|abs_diff)$", res):
+                    sub = True
+                if re.search(r"Enumerate<.*>::next$|Enumerate<I> as .*Iterator>::next$|Iterator::position$|Iterator::rposition$|str>?::r?find$|CharIndices.*::next$", res):
+                    pos = res.split("::")[-3:] if pos is None else pos
+                    pos = "::".join(pos) if isinstance(pos, list) else pos
+                if res.endswith("::next") and d[2]["args"] and ("Enumerate<" in " ".join(d[2].get("targs", [])) or
+                                                               "Enumerate<" in f.local_ty(op_local(d[2]["args"][0]) or 0)):
+                    pos = pos or "the index of an enumerate()"
+                if re.search(r"ops::Range(Inclusive)?<A>>::next$", res):
+                    pos = pos or "the variable of a range loop"
+                st += [op_local(a) for a in d[2]["args"]]
+            elif d[0] == "assign":
+                rv = d[3]
+                if rv[0] == "bin":
+                    if rv[1] in ("Sub", "SubWithOverflow", "SubUnchecked"):
+                        sub = True
+                    st += [op_local(rv[2]), op_local(rv[3])]
+                elif rv[0] == "use":
+                    st.append(op_local(rv[1]))
+                elif rv[0] in ("cast", "un"):
+                    st.append(op_local(rv[-1]))
+                elif rv[0] == "ref":
+                    st.append(place_local(rv[2]))
+    return pos, sub
+
+
+STR_INDEX_CALLS = r"string::String::(truncate|split_off|insert|insert_str|remove|replace_range|drain)$|str>?::(split_at|split_at_mut|split_at_checked)$"
+
+
+def r7h_string_index_calls(ctx):
+    r = Result("R7h", "every call that takes a byte index into a String / str and panics off a char boundary -- truncate, split_off, "
+                      "insert, insert_str, remove, split_at (replace_range / drain: their range) -- is handed an index proven to "
+                      "be a boundary of that very string by the same evaluation as R7a (0, len(), a find() match, a char_indices() "
+                      "offset, ... or an is_char_boundary() guard). A size cap such as `s.truncate(4096)` cuts through a "
+                      "multi-byte character of the first long non-ASCII docstring")
+    crate = ctx.bin
+    n = 0
+    pending = []
+    for f in crate.real_fns():
+        if "_serde::" in f.id or f.id.startswith("<"):
+            continue
+        for bb, c in f.calls():
+            res = c.get("res") or ""
+            m = re.search(STR_INDEX_CALLS, res)
+            if not m or len(c["args"]) < 2 or c["span"][4].startswith("macro:"):
+                continue
+            meth = m.group(1) or m.group(2)
+            if meth == "split_at_checked":
+                continue
+            n += 1
+            ev = BndEval(crate, f, bb)
+            S = ev.strid(c["args"][0])
+            ops = []
+            if meth in ("replace_range", "drain"):
+                rng = ev.range_of(c["args"][1])
+                if rng is None:
+                    ops = [None]
+                else:
+                    ops = [o for o in rng[1:] if o is not None]
+            else:
+                ops = [c["args"][1]]
+            bad = []
+            for op in ops:
+                if op is None:
+                    bad.append("range not visible")
+                    continue
+                ok, why = ev.bnd(op, S)
+                if not ok and ev.char_boundary_guard(op, S):
+                    ok = True
+                if not ok:
+                    bad.append(why)
+            key = re.sub(r"_\d+", "_", "R7h|%s|%s(%s)" % (f.id, meth, "; ".join(str(b) for b in bad)))
+            if bad:
+                pending.append((key, "%s at %s: the index is not a proven char boundary of the string (%s): non-ASCII text can make it "
+                                     "panic" % (meth, crate.span_str(c["span"]), "; ".join(str(b) for b in bad)), (f, bb)))
+            else:
+                r.ok(sample={"site": crate.span_str(c["span"]), "call": meth})
+    settle(r, pending)
+    r.counts["byte_index_calls_on_strings"] = n  # expected 0 on the pinned tree; positive example: seeded change C11-s
+    return r
